@@ -241,6 +241,10 @@ FAMILIES = [
 ]
 
 TRUSTED = [
+    "translator harness/translate/py2coq.py + declared types (py2coq_targets.py WalGen): WriteAheadLog.crash/truncate/recover/synced_up_to/size, "
+    "SyncEveryWrite/SyncOnBatch.should_sync are regenerated from components/storage/wal.py on every run and proved to refine the WAL model "
+    "(C15/GenTie.v); idioms trusted: [x for x in L if c] is filter, sorted(L, key=lambda) is a stable sort on an integer key, stored values and "
+    "timestamps are opaque integers; NOT translated: append (a generator), SyncPeriodic (float seconds), the statistics",
     "Coq 8.16.1 kernel (coqc, vm_compute for refutation witnesses and case evaluation); no native_compute",
     "axioms: none (every theorem of C15/Props.v is 'Closed under the global context')",
     "correspondence harness harness/props/c15.py (re-run from scratch per crash index; in-Coq comparison ok_durable of C15/Model.v)",
@@ -248,12 +252,18 @@ TRUSTED = [
     "segment is an explicit input; float seconds are compared as integer nanoseconds (SyncPeriodic intervals chosen off the time grid)",
 ]
 
-PROOF_FILES = ["C14/Model.v", "C14/LsmProofs.v", "C14/SeqProofs.v", "C15/Model.v", "C15/Proofs.v", "C15/RestProofs.v", "C15/Props.v"]
+PROOF_FILES = ["C14/Model.v", "C14/LsmProofs.v", "C14/SeqProofs.v", "C15/Model.v", "C15/Proofs.v", "C15/RestProofs.v",
+               "Base/PyLib.v", "Gen/WalGen.v", "C15/GenTie.v", "C15/Props.v"]
 
 
 def run(ctx):
     from concurrent.futures import ThreadPoolExecutor
+    from props import pygen
+    ok, info = pygen.regenerate("WalGen")       # storage/wal.py (crash/truncate/recover, sync policies) translated from $HS_REPO by py2coq
+    ctx.coverage["regenerated"] = info
     ctx.prove(PROOF_FILES, allowed_axioms=(), trusted_base=TRUSTED)
+    if not ok and ctx.pending_obligation_violation:
+        ctx.pending_obligation_violation["translator"] = info.get("error")
     n = ctx.n(60, 250)
     with ThreadPoolExecutor(max_workers=2) as pool:
         pre = Pre(ctx, FAMILIES[0], n, pool, pool_above=20)
